@@ -211,3 +211,36 @@ Theorem C09_file_metadata_position : forall swp rest,
   (forall g, g <> 1 -> read_table swp None None (223 :: 91 :: g :: rest) = (None, SBDF_ERROR_UNEXPECTED_SECTION_ID, 223 :: 91 :: g :: rest)).
 Proof. exact file_metadata_position. Qed.
 Print Assumptions C09_file_metadata_position.
+
+(* two of the statuses at the value-array reader, from the source (sbdf_va_read = sbdf_read_valuearray_int with a handle):
+   an unknown encoding id, and a negative row count in a run-length array *)
+From Sbdf Require Import ImpFactsCells ImpFactsReadArr ImpFactsReadVa.
+Theorem C09_source_va_read_unknown_encoding : forall rf rp fo po k m h e t s2, k < 0 -> Forall byte (e :: t :: s2) -> e <> 1 -> e <> 2 -> e <> 3 ->
+  exists f0, forall f, (f0 <= f)%nat -> exists fin,
+    callC prog_env f prog_sbdf_va_read [VPtr rf fo; VPtr rp po] m k (e :: t :: s2) h = OReturn (VInt SBDF_ERROR_UNKNOWN_VALUEARRAY_ENCODING) fin /\
+    Imp.lookup "*handle" (vars fin) = Some VNull.
+Proof.
+  intros rf rp fo po k m h e t s2 Hk Hb N1 N2 N3.
+  destruct (va_read_source rf rp fo po k (e :: t :: s2) m h Hb ltac:(intros t' s' E; injection E as E _; lia)) as (f0 & F). exists f0. intros f Hf.
+  destruct (F f Hf) as (st & fin & C & _ & MT & Out). specialize (MT Hk).
+  assert (EM : Va.va_read false None (e :: t :: s2) = Err SBDF_ERROR_UNKNOWN_VALUEARRAY_ENCODING).
+  { unfold Va.va_read, rd_bind, vt_read. cbn [read_int8]. unfold SBDF_PLAINARRAYENCODINGTYPEID, SBDF_RUNLENGTHENCODINGTYPEID, SBDF_BITARRAYENCODINGTYPEID.
+    replace (e =? 1) with false by lia. replace (e =? 2) with false by lia. replace (e =? 3) with false by lia. reflexivity. }
+  rewrite EM in MT. subst st. exists fin. split; [exact C|]. destruct Out as [(E & _)|(_ & Hh & _)]; [discriminate E|exact Hh].
+Qed.
+Print Assumptions C09_source_va_read_unknown_encoding.
+
+Theorem C09_source_va_read_negative_rows : forall rf rp fo po k m h t n s3, k < 0 -> Forall byte (2 :: t :: enc32 false n ++ s3) -> i32_range n -> n < 0 ->
+  exists f0, forall f, (f0 <= f)%nat -> exists fin,
+    callC prog_env f prog_sbdf_va_read [VPtr rf fo; VPtr rp po] m k (2 :: t :: enc32 false n ++ s3) h = OReturn (VInt SBDF_ERROR_INVALID_SIZE) fin /\
+    Imp.lookup "*handle" (vars fin) = Some VNull.
+Proof.
+  intros rf rp fo po k m h t n s3 Hk Hb Hr Hn.
+  destruct (va_read_source rf rp fo po k (2 :: t :: enc32 false n ++ s3) m h Hb ltac:(intros t' s' E; discriminate E)) as (f0 & F). exists f0. intros f Hf.
+  destruct (F f Hf) as (st & fin & C & _ & MT & Out). specialize (MT Hk).
+  assert (EM : Va.va_read false None (2 :: t :: enc32 false n ++ s3) = Err SBDF_ERROR_INVALID_SIZE).
+  { unfold Va.va_read, rd_bind, vt_read, rfail. cbn [read_int8]. change (2 =? SBDF_PLAINARRAYENCODINGTYPEID) with false. change (2 =? SBDF_RUNLENGTHENCODINGTYPEID) with true. cbv iota.
+    destruct (rspec_int32 false n Hr) as [E32 _]. rewrite (E32 s3). replace (n <? 0) with true by lia. reflexivity. }
+  rewrite EM in MT. subst st. exists fin. split; [exact C|]. destruct Out as [(E & _)|(_ & Hh & _)]; [discriminate E|exact Hh].
+Qed.
+Print Assumptions C09_source_va_read_negative_rows.
